@@ -500,7 +500,7 @@ func run(t *T) {
 		if r.Chance(1, 5) {
 			o.Categories = nil
 		}
-		if i%6 == 0 {
+		if i%7 == 0 {
 			// files whose batches mostly carry an Offset (only these SECs admit one)
 			o.SECs, o.Categories, o.Offset = []string{ach.PPD, ach.CCD, ach.CTX, ach.WEB}, nil, true
 		}
